@@ -37,6 +37,9 @@ def project(nfiles, fmt, mode=None):
     if nfiles == 2:
         files = {"test_a.py": files["test_a.py"], "test_b.py": files["test_b.py"]}
     files["pyproject.toml"] = '[tool.inline-snapshot]\nformat-command="cat"\n' if fmt == "cmd" else ""
+    if mode == "suffix":
+        # the same bytes outsourced under two suffixes, in two files
+        files["test_c.py"] = files["test_c.py"].replace("outsource('data-c')", "outsource(b'data-a')")
     if mode == "clean":
         # formatter-clean files: the whole file goes through the formatter once more when it is written
         import black
@@ -182,8 +185,8 @@ def _judge(case, files, new_ast, new_bytes=None):
 
 def explore(tier, seed, runner):
     done = []
-    combos = [(3, "black", None), (3, "cmd", None), (3, "black", "trim"), (3, "black", "clean")] if tier == "quick" else (
-        [(n, f, None) for n in (1, 2, 3) for f in ("black", "cmd")] + [(3, "black", "trim"), (3, "cmd", "trim"), (1, "black", "trim"), (3, "black", "clean"), (1, "black", "clean")])
+    combos = [(3, "black", None), (3, "cmd", None), (3, "black", "trim"), (3, "black", "clean"), (3, "black", "suffix")] if tier == "quick" else (
+        [(n, f, None) for n in (1, 2, 3) for f in ("black", "cmd")] + [(3, "black", "trim"), (3, "cmd", "trim"), (1, "black", "trim"), (3, "black", "clean"), (1, "black", "clean"), (3, "black", "suffix"), (3, "cmd", "suffix")])
     rec_tasks = [{"record": {"nfiles": n, "fmt": f, "mode": m}} for n, f, m in combos]
     recs = runner(rec_tasks)
     tasks = []
